@@ -3,6 +3,7 @@ package main
 import (
 	"bytes"
 	"fmt"
+	"strings"
 
 	rs "github.com/klauspost/reedsolomon"
 )
@@ -43,10 +44,29 @@ func opUpd(a []string) string {
 		return "err(encode) " + errClass(err)
 	}
 	newData := make([][]byte, d)
+	// optional trailing tokens: a number = length of the first changed shard; e:<list> = entries of
+	// newDatashards that are empty but non-nil (must be treated as "not changed")
+	newlen := -1
+	lens := map[int]int{} // l:<shard>:<len> = that changed shard gets a different length
+	for _, t := range a[7:] {
+		if strings.HasPrefix(t, "e:") {
+			for _, c := range parseList(t[2:]) {
+				newData[c] = []byte{}
+			}
+		} else if strings.HasPrefix(t, "l:") {
+			f := strings.Split(t, ":")
+			lens[atoi(f[1])] = atoi(f[2])
+		} else {
+			newlen = atoi(t)
+		}
+	}
 	for k, c := range changed {
 		n := size
-		if k == 0 && len(a) > 7 {
-			n = atoi(a[7])
+		if k == 0 && newlen >= 0 {
+			n = newlen
+		}
+		if l, ok := lens[c]; ok {
+			n = l
 		}
 		newData[c] = fill(seed+1, c, n)
 	}
